@@ -35,6 +35,9 @@ class Controller:
         self.running = None
         self.alive = set()
         self.owner = {}         # lock name -> wid
+        self.held = {}          # thread (wid or 'main') -> set of lock names it holds
+        self.lockset = {}       # dataset name -> intersection of the lock sets held at its accesses so far (Eraser)
+        self.nlocks = 0         # locks created through the factory while the scheduler is installed
         self.trace = []         # (wid, label)
         self.violations = []    # property violations observed directly (e.g. dataset access without its lock)
         self.quit = False
@@ -124,6 +127,7 @@ class RecLock:
 
         def grant():
             c.owner[self.name] = wid if wid is not None else 'main'
+            c.held.setdefault(wid if wid is not None else 'main', set()).add(self.name)
         c.point('acq' + self.name, enabled=lambda: c.owner.get(self.name) is None, on_grant=grant)
         if not self._real.acquire(timeout=10):
             c.violations.append(f'lock {self.name} was contended although the controller saw it free')
@@ -132,9 +136,11 @@ class RecLock:
     def release(self):
         c = self.ctrl
         self._real.release()
+        wid = c.wid()
 
         def grant():
             c.owner[self.name] = None
+            c.held.setdefault(wid if wid is not None else 'main', set()).discard(self.name)
         c.point('rel' + self.name, on_grant=grant)
 
     def locked(self):
@@ -164,9 +170,16 @@ class Proxy:
             def call(*a, **kw):
                 wid = c.wid()
                 who = wid if wid is not None else 'main'
-                if c.owner.get(name) != who:
-                    c.violations.append(f'dataset {name}.{k} called by {who} (job {c.job_of.get(wid)}) without holding lock {name} '
-                                        f'(owner: {c.owner.get(name)})')
+                # lock-set discipline: some one lock must be held at every access to this dataset (for the code as it is: the
+                # lock of the same name; a lock created lazily - through the factory below - counts under its own name)
+                held = frozenset(c.held.get(who, ()))
+                before = c.lockset.get(name)
+                now = held if before is None else (before & held)
+                c.lockset[name] = now
+                if not now and (before is None or before):
+                    c.violations.append(f'dataset {name}.{k} called by {who} (job {c.job_of.get(wid)}) holding {sorted(held) or "no lock"}: no single '
+                                        f'lock protects every access to {name} (locks common to the earlier accesses: '
+                                        f'{sorted(before) if before else "-"})')
                 seen = c.io_seen.setdefault(who, set())
                 if name not in seen:
                     seen.add(name)
@@ -322,8 +335,27 @@ def install(rf, ctrl, hook_models=True):
     from homonim.kernel_model import RefSpaceModel, SrcSpaceModel
     ControlledExecutor.ctrl = ctrl
     saved = dict(futures=hf.futures, Ref=hf.RefSpaceModel, Src=hf.SrcSpaceModel, out_files=type(rf)._out_files)
-    rf._src_lock, rf._ref_lock = RecLock('S', ctrl), RecLock('R', ctrl)
-    rf._corr_lock, rf._param_lock = RecLock('C', ctrl), RecLock('P', ctrl)
+    # the locks the constructors created are replaced by controlled ones of the same role; a lock that does not exist yet (created
+    # on first use) is left to the code, which then gets its locks from the factory below - every such lock is a controlled lock
+    # under a fresh name, and creating one inside a worker is a scheduling point
+    for attr, nm in (('_src_lock', 'S'), ('_ref_lock', 'R'), ('_corr_lock', 'C'), ('_param_lock', 'P')):
+        if attr in rf.__dict__:
+            setattr(rf, attr, RecLock(nm, ctrl))
+
+    class ThreadingShim:
+        def __getattr__(self, k):
+            return getattr(threading, k)
+
+        @staticmethod
+        def Lock():
+            ctrl.nlocks += 1
+            lk = RecLock(f'L{ctrl.nlocks}', ctrl)
+            if ctrl.wid() is not None:
+                ctrl.point('mklock')
+            return lk
+    saved['threading'] = getattr(hf, 'threading', None)
+    if saved['threading'] is not None:
+        hf.threading = ThreadingShim()
     real_src, real_ref = rf._src_im, rf._ref_im
     rf._src_im, rf._ref_im = Proxy(real_src, 'S', ctrl), Proxy(real_ref, 'R', ctrl)
     outs = {}
@@ -381,6 +413,8 @@ def install(rf, ctrl, hook_models=True):
         yield outs
     finally:
         hf.futures = saved['futures']
+        if saved.get('threading') is not None:
+            hf.threading = saved['threading']
         hf.RefSpaceModel, hf.SrcSpaceModel = saved['Ref'], saved['Src']
         type(rf)._out_files = saved['out_files']
         type(rf)._process_block = saved['pb']
